@@ -61,8 +61,9 @@ class Scn:
 
     def __init__(self, label: str, build: Callable[[Any], Any], cmd: Callable[[Any, Any], Any], get: Callable[[Any], Any], values: list[Any],
                  ok: Callable[[Any, Any], bool], prepare: list[tuple[str, Any]] | None = None, settle: float = 1.0, pairs: bool = False,
-                 feedback: Callable[[Any, Any], list[tuple[str, Any]]] | None = None) -> None:
+                 feedback: Callable[[Any, Any], list[tuple[str, Any]]] | None = None, interrupt: float | None = None) -> None:
         self.label, self.build, self.cmd, self.get, self.values, self.ok = label, build, cmd, get, values, ok
+        self.interrupt = interrupt  # in a pair of commands the second one follows after this many seconds (the first one is still being carried out)
         self.prepare = prepare or []
         self.settle = settle
         self.pairs = pairs
@@ -128,6 +129,16 @@ def _scenarios() -> list[Scn]:
     for inv in B:
         S.append(Scn(f"cover.updown(invert={inv})", lambda x, inv=inv: D.Cover(x, "d", group_address_long="1/3/1", group_address_stop="1/3/2", invert_updown=inv, travel_time_down=20, travel_time_up=20),
                      lambda d, v: d.set_down() if v else d.set_up(), lambda d: d.current_position(), B, lambda q, r: r == (100 if q else 0), settle=45.0, pairs=True))
+    # a time-based cover (no position address: the library stops it itself) that is given a new target while it is still travelling
+    def timed_cover(x: Any, inv: bool = False) -> Any:
+        c = D.Cover(x, "d", group_address_long="1/3/1", group_address_stop="1/3/2", invert_updown=inv, travel_time_down=20, travel_time_up=20)
+        c.travelcalculator.set_position(0)
+        return c
+
+    for inv in B:
+        for gap in (2.0, 7.0, 12.0):
+            S.append(Scn(f"cover.timed.retarget(invert={inv},after={gap:g}s)", lambda x, inv=inv: timed_cover(x, inv), lambda d, v: d.set_position(v), lambda d: d.current_position(), [0, 30, 50, 100],
+                         lambda q, r: r == q, settle=45.0, pairs=True, interrupt=gap))
     # a cover that only has a position address: end-position commands go out as positions
     for inv in B:
         S.append(Scn(f"cover.position-only.updown(invert={inv})", lambda x, inv=inv: D.Cover(x, "d", group_address_position="1/3/3", invert_position=inv, travel_time_down=20, travel_time_up=20),
@@ -316,6 +327,9 @@ def run_case(si: int, vis: tuple[int, ...], gadpt: bool = False) -> list[tuple[s
                 hist.append(v)
                 n_before = len(w.iface.sent)
                 t = w.spawn(scn.cmd(dev, v), name="harness-user")
+                if scn.interrupt is not None and len(vis) > 1 and len(hist) < len(vis):
+                    w.run(scn.interrupt)   # the next command interrupts this one: it is not judged on its own
+                    continue
                 w.run(scn.settle)
                 if not t.done():
                     viols.append(("command-does-not-return", f"{scn.label}: {v!r}"))
@@ -336,7 +350,7 @@ def run_case(si: int, vis: tuple[int, ...], gadpt: bool = False) -> list[tuple[s
                         kind += ":with-project-dpts"
                     viols.append((f"loop-back-differs:{scn.label}:{kind}", f"{scn.label}{' [group_address_dpt configured as in a project import]' if gadpt else ''}: commands {hist!r} -> device reports {rep!r}; telegrams sent: {[(str(tg.destination_address), repr(tg.payload)) for _t, tg in sent]}"))
                     break
-                if not sent:
+                if not sent and scn.interrupt is None:   # (a timed cover already at the requested position has nothing to send)
                     viols.append((f"no-telegram-sent:{scn.label}", f"{scn.label}: command {v!r} queued nothing"))
                 if scn.feedback is not None:
                     for ga, payload in scn.feedback(dev, v):
